@@ -25,7 +25,21 @@ RULE = ("cases are whole TTML documents enumerated by mixed-radix index per fami
         "a timing document is non-trivial when the reference's snapshots over the probe times take >= 2 distinct values "
         "and one shows content; a styling/parameter/whitespace document when the reference assigns a non-default value to "
         "the aspect under test; an E-dev case when the corrupted value is rejected by the reference grammar (all are)")
-BOUNDS = {}
+BOUNDS = {
+  "quick": "F-time: all element trees over {body,div,p,span,br,set} of depth <= 4 with <= 4 elements x the full product of "
+           "{par,seq} x begin{-,1s} x dur{-,2s} x end{-,3s} on every node (set: begin/dur/end; body of 4-element trees and every node "
+           "of the 5-element trees: {par,seq} x {-,begin,end,begin+dur}; body of 5-element trees untimed), text on leaf p/span, set "
+           "children only in par containers; F-expr: 9 syntaxes x 5-9 boundary values x frameRate{-,24,25,30} x multiplier{-,1000 1001} x "
+           "tickRate{-,1,10000000} x {begin,end,dur}; F-graph: 3 style elements x reference lists {[],a,b,ab,ba,missing} each x which set "
+           "tts:color x element references (12 lists of <= 2 incl. a missing id) x inline, target p; region target with 0-2 nested styles "
+           "and a nested style with a reference; F-value: every value form of the 36 IMSC 1.1 style attributes x 7 carriers; F-spacelang "
+           "3^4 x 3^4; F-mixed: child sequences <= 4 over 6 tokens x {p,span} x {par,seq} x xml:space; F-ruby; F-param; F-set; "
+           "F-regiontime; F-initial; E-dev: every attribute of 4 structural seeds and of 2 value forms x 5 carriers per style attribute "
+           "x 7 malformed values",
+  "thorough": "as quick with: F-time <= 4 elements additionally text{yes,no} on every leaf and the full domain on body; 5-element trees "
+              "with body timed; all 6-element trees (body untimed); F-graph with the mixed missing-id reference lists (10 per style); "
+              "F-mixed sequences <= 5",
+}
 ASSUMPTIONS = [
   "R_ttml (mc/refttml.py) is the reference: TTML2 sections 6, 8, 10, 12, 13 and IMSC 1.1 sections 6-8 as restated in DESIGN.md appendix A",
   "snapshots are compared at every breakpoint of either timed tree, midpoints and outside: exact for all rational t",
